@@ -111,6 +111,10 @@ func recacheAggregatorContext(ctx sdk.Context, agc *aggregator.AggregatorContext
 		agc.PrepareRoundEndBlock(uint64(to - 1))
 	} else {
 		prev := int64(0)
+		// replayed messages get the nonces 1, 2, ... per validator and feeder (the log does not keep the
+		// original ones): with nonce 0 for all of them the filter drops a validator's second message.
+		// Later messages of the round carry higher nonces, so there is no collision.
+		replayNonce := make(map[string]int32)
 		for ; from < to; from++ {
 			// fill params
 			for b, p = range recentParamsMap {
@@ -129,10 +133,13 @@ func recacheAggregatorContext(ctx sdk.Context, agc *aggregator.AggregatorContext
 				for _, msg := range msgs {
 					// these messages are retreived for recache, just skip the validation check and fill the memory cache
 					//nolint
+					nonceKey := msg.Validator + "/" + strconv.FormatUint(msg.FeederID, 10)
+					replayNonce[nonceKey]++
 					agc.FillPrice(&types.MsgCreatePrice{
 						Creator:  msg.Validator,
 						FeederID: msg.FeederID,
 						Prices:   msg.PSources,
+						Nonce:    replayNonce[nonceKey],
 					})
 				}
 			}
@@ -162,6 +169,11 @@ func recacheAggregatorContext(ctx sdk.Context, agc *aggregator.AggregatorContext
 	agc.SetParams(p)
 	setCommonParams(p)
 	c.AddCache(cache.ItemP(*p))
+
+	// the messages of the block that finalized a round are not part of the replay log: a round whose price
+	// is already in the store must not be rebuilt as open, otherwise it is closed a second time (with the
+	// previous price) at the end of its window
+	agc.CloseFinalizedRounds(func(tokenID uint64) uint64 { return k.GetNextRoundID(ctx, tokenID) })
 
 	return true
 }
